@@ -452,3 +452,8 @@ func rawHist(depth int) {
 	kit.Hist(depth, events, settle)
 	kit.Must("Socket.Close", func() { _ = s.Close() })
 }
+
+// Bodies re-run by C11 under the race-instrumented build.
+var RaceBodies = map[string]func(){
+	"c07-newsurvey-vs-response": schedNewSurvey,
+}
